@@ -6,7 +6,8 @@ import os
 from lib.vlib import gN, gbool, glist, gbytes, gopt, gpair, gstring_bytes
 
 HDR = "From SioV Require Import Base.GoSem Eio.Handshake Eio.HandshakeRace Eio.HandshakeCheck.\n"
-METHODS = {"GET", "POST", "PUT", "DELETE", "OPTIONS"}
+METHODS = {"GET", "POST", "PUT", "DELETE", "OPTIONS", "CONNECT"}
+KEY_HTTP3 = "http3-skips-version-and-method-checks"
 BODY = {"empty": 0, "err": 1, "open": 2, "ok": 3, "payload": 4, "other": 5}
 THEOREMS = ["C17_invalid_is_error_and_pure", "C17_single_defect_exact_code", "C17_only_a_handshake_changes_the_store",
             "C17_valid_handshake_fresh", "C17_closed_admits_none", "C17_close_closes_all", "C17_close_then_nothing"]
@@ -52,7 +53,7 @@ class Table:
 
 def g_req(tbl, rq):
     m = rq["method"] if rq["method"] in METHODS else "OTHER"
-    return "(mkReq %s %s %s %s %s %s)" % (m, tbl.s(rq["eio"]), tbl.s(rq["tr"]), tbl.s(rq["sid"]),
+    return "(mkReq P%d %s %s %s %s %s %s)" % (rq.get("proto") or 1, m, tbl.s(rq["eio"]), tbl.s(rq["tr"]), tbl.s(rq["sid"]),
                                           gbool(rq["wsup"]), gbool(not rq["deny"]))
 
 
@@ -102,12 +103,13 @@ def eval_multi(ctx, name, header, terms, fns, shard=800):
 def req_class(r):
     """bucket for the distribution / the non-trivial rule"""
     q = r["req"]
-    return (r["phase"], q["method"], q["eio"], q["tr"], q["sidkind"], q["b64"], q["j"], q["wsup"], q["deny"])
+    return (r["phase"], q.get("proto"), q.get("direct"), q["method"], q["eio"], q["tr"], q["sidkind"], q["b64"], q["j"], q["wsup"], q["deny"])
 
 
 def describe(r):
     q = r["req"]
-    return ("%s ?EIO=%r&transport=%r&sid=%r(%s)%s%s%s%s on a %s server with %d live sessions -> HTTP %d, code %s, "
+    how = "HTTP/%d%s " % (q.get("proto") or 1, " (handler called with a request saying so)" if q.get("direct") else "")
+    return (how + "%s ?EIO=%r&transport=%r&sid=%r(%s)%s%s%s%s on a %s server with %d live sessions -> HTTP %d, code %s, "
             "OPEN sid %r; sessions %d -> %d" % (
                 q["method"], q["eio"], q["tr"], q["sid"], q["sidkind"], "&b64" if q["b64"] else "",
                 "&j" if q["j"] else "", " [websocket upgrade]" if q["wsup"] else "", " [Authenticator refuses]" if q["deny"] else "",
@@ -120,6 +122,8 @@ def describe(r):
 def finding_key(r):
     """decidable classes of failing inputs (none is listed as known: both were repaired)"""
     q = r["req"]
+    if (q.get("proto") or 1) == 3:
+        return KEY_HTTP3
     live = q["sidkind"] in ("live", "livews")
     if live and q["method"] not in ("GET", "POST") and r["resp"]["status"] == 200:
         return "live-sid-other-method"
@@ -160,11 +164,25 @@ def matrix_suite(ctx, vh):
     ctx.sample({"suite": "matrix", "case": next((r for r in rows if r["phase"] == "overlap" and len(r["rnd"]) > 1), rows[0])})
     bad = eval_multi(ctx, "mx", hdr, terms, ["oracle", "agree"])
     bad_oracle, bad_agree = bad["oracle"], bad["agree"]
-    ctx.obligation("oracle:request-matrix", "oracle", not bad_oracle, "%d requests, %d fail" % (len(rows), len(bad_oracle)))
+    bad_known = [i for i in bad_oracle if finding_key(rows[i]) == KEY_HTTP3 and ctx.known(KEY_HTTP3, "")]
+    bad_unknown = [i for i in bad_oracle if i not in set(bad_known)]
+    ctx.obligation("oracle:request-matrix", "oracle", not bad_unknown, "%d requests, %d fail (+ %d in the known class %s)" % (
+        len(rows), len(bad_unknown), len(bad_known), KEY_HTTP3))
+    ctx.extra["known_class_rows"] = {KEY_HTTP3: len(bad_known)}
     ctx.obligation("correspondence:request-matrix", "correspondence", not bad_agree,
                    "%d requests, %d disagree with Eio/Handshake.v serve" % (len(rows), len(bad_agree)))
+    # the finding class exists twice (here and as HandshakeCheck.finding_http3 = negated side condition of the
+    # _partial theorem): the failing rows are pushed through the Coq predicate, a disagreement is reported
+    if bad_oracle:
+        sub = [terms[i] for i in bad_oracle]
+        notkey = set(eval_multi(ctx, "mx_key", hdr, sub, ["finding_http3"])["finding_http3"])
+        drift = [bad_oracle[j] for j in range(len(sub)) if (j not in notkey) != (finding_key(rows[bad_oracle[j]]) == KEY_HTTP3)]
+        ctx.obligation("finding-class-agrees:" + KEY_HTTP3, "audit", not drift, "%d failing rows classified" % len(sub))
+        if drift:
+            ctx.violation("finding class %s: harness and Coq predicates disagree on %s" % (KEY_HTTP3, describe(rows[drift[0]])),
+                          {"kind": "correspondence-broken", "suite": "finding-class", "case": rows[drift[0]]}, no_input=True)
     seen = set()
-    for i in sorted(bad_oracle, key=lambda i: (rows[i]["req"]["eio"] != "4", rows[i]["req"]["method"] not in ("GET", "POST"), i)):
+    for i in sorted(bad_unknown, key=lambda i: (finding_key(rows[i]) == KEY_HTTP3, rows[i]["req"]["eio"] != "4" and rows[i]["req"]["method"] not in ("GET", "POST"), i)):
         r = rows[i]
         k = (finding_key(r), r["req"]["method"], r["req"]["sidkind"], r["resp"]["status"], r["resp"]["code"])
         if k in seen or len(seen) >= 4:
@@ -172,7 +190,7 @@ def matrix_suite(ctx, vh):
         seen.add(k)
         ctx.fail_or_known(finding_key(r), "Engine.IO request handling violates the property: " + describe(r),
                           {"kind": "failing-input", "engine": "eiohttp -mode matrix", "case": r})
-    if bad_agree and not bad_oracle:
+    if bad_agree and not bad_unknown:
         r = rows[bad_agree[0]]
         ctx.violation("the server no longer decides requests as the model Eio/Handshake.v does (theorems %s are about "
                       "the model); first differing request: %s" % (", ".join(THEOREMS), describe(r)),
@@ -202,10 +220,11 @@ def matrix_suite(ctx, vh):
 def ids_suite(ctx, vh):
     n = 100000 if ctx.quick else 1000000
     runs = [("seeded", n, ctx.seed % 2 ** 32), ("zero", n // 20, 2 ** 24 - n // 40), ("repeat", n // 20, 2 ** 32 - n // 40)]
-    for rmode, cnt, start in runs:
+    def one(run):
+        rmode, cnt, start = run
         rows = ctx.vh_jsonl(vh, "eiohttp", ["-mode", "ids", "-seed", ctx.seed, "-n", cnt, "-rand", rmode, "-start", start])
         if rows is None:
-            return
+            return None
         summary = rows[-1]
         rows = rows[:-1]
         ctx.count(len(rows), nontrivial_key=None, dist="ids:" + rmode)
@@ -232,7 +251,7 @@ def ids_suite(ctx, vh):
         # kernel evaluation on a sample: the first ids of the run (consecutive), the ids around the point where
         # the counter crosses 2^24 / 2^32 (index n/2 in the zero / repeat runs), and a regular sub-sample
         nk = len(rows)
-        head, win, stride = (600, 150, max(1, nk // 400)) if ctx.quick else (6000, 1500, max(1, nk // 6000))
+        head, win, stride = (400, 100, max(1, nk // 300)) if ctx.quick else (6000, 1500, max(1, nk // 6000))
         keep = sorted(set(range(min(head, nk))) | set(range(max(0, nk // 2 - win), min(nk, nk // 2 + win)))
                       | set(range(0, nk, stride)) | {nk - 1})
         sample = [rows[i] for i in keep]
@@ -240,7 +259,7 @@ def ids_suite(ctx, vh):
                        gN(int.from_bytes(r["id"].encode(), "big"))) for i, r in zip(keep, sample)]
         for r in sample[:: max(1, len(sample) // 2000)]:
             ctx.count(0, nontrivial_key=("id", rmode, r["seq"]))
-        badi = eval_multi(ctx, "ids_" + rmode, HDR, terms, ["oracle_idN", "agree_idN"], shard=400)
+        badi = eval_multi(ctx, "ids_" + rmode, HDR, terms, ["oracle_idN", "agree_idN"], shard=300)
         bad_o, bad_a = badi["oracle_idN"], badi["agree_idN"]
         ctx.obligation("oracle:ids-carry-seq/" + rmode, "oracle", not bad_o, "%d ids, %d fail" % (len(sample), len(bad_o)))
         ctx.obligation("correspondence:ids/" + rmode, "correspondence", not bad_a,
@@ -256,7 +275,13 @@ def ids_suite(ctx, vh):
             ctx.violation("GenerateBase64ID no longer computes the model's generate_id; first differing case %s" % r,
                           {"kind": "correspondence-broken", "suite": "ids/" + rmode,
                            "theorems": ["C17_ids_distinct_by_seq", "C17_consecutive_ids_distinct", "C17_ids_rows_distinct"], "case": r}, no_input=True)
-    ctx.sample({"suite": "ids", "case": rows[0]})
+        return rows[0]
+
+    import concurrent.futures as cf
+    with cf.ThreadPoolExecutor(max_workers=3) as ex:      # the three runs are independent
+        firsts = list(ex.map(one, runs))
+    if firsts and firsts[0]:
+        ctx.sample({"suite": "ids", "case": firsts[0]})
 
 
 def race_suite(ctx, vh):
@@ -317,6 +342,20 @@ def run(ctx):
     vh = ctx.go_build()
     if vh is None:
         return
-    matrix_suite(ctx, vh)
-    race_suite(ctx, vh)
-    ids_suite(ctx, vh)
+    import time
+    import concurrent.futures as cf
+
+    def timed(name, suite):
+        t0 = time.time()
+        suite(ctx, vh)
+        ctx.note("suite %s: %.1f s" % (name, time.time() - t0))
+
+    def rest():
+        timed("race", race_suite)
+        timed("ids", ids_suite)
+
+    # the live-HTTP matrix and the (race, ids) suites use separate servers and separate files: run side by side
+    with cf.ThreadPoolExecutor(max_workers=2) as ex:
+        futs = [ex.submit(timed, "matrix", matrix_suite), ex.submit(rest)]
+        for f in futs:
+            f.result()
